@@ -208,3 +208,37 @@ def check(ctx):
     SC = gsa.summarise(ctx, TR, 'Transformer.split_csymbol', inline_only=())
     rv = [gsa._unparse(n) for g, n in SC.returns]
     r5.check(len(rv) == 1 and re.search(r'^self\._split_c_string_for_namespace_matches\(.*\)\[-1\]$', rv[0]), 'split_csymbol takes the highest-ranked match', tm.rel, SC.func.lineno, 'split_csymbol returns %s' % rv)
+    # the upper/lower-case prefix family is chosen from the FIRST character of the name only
+    up = [a_ for a_ in SP.atoms() if re.search(r'\.isupper\(\)$', a_)]
+    r5.check(bool(up) and all(re.search(r'\[0\]\.isupper\(\)$', a_) for a_ in up), 'upper-case prefixes selected by the first character', tm.rel, sp.lineno,
+             'the choice between FOO_ and foo_ prefixes tests %s: a constant with a mixed-case tail (GDK_KEY_a, GDK_KEY_Return) matches no namespace prefix and is dropped' % up, detail=up)
+
+    # ------------------------------------------------------------------ R6 constructor return check; get-type suffixes
+    r6 = ctx.rule('R6', 'constructor: returned class must be the type or an ancestor; both get-type spellings handled alike', floor=3)
+    ICS = gsa.summarise(ctx, MT, 'MainTransformer._is_constructor', opaque=('_get_constructor_class', '_get_constructor_name', '_get_uscored_prefix', '_uscored_prefix_for_type', '_guess_constructor_by_name',
+                                                                         '_can_have_constructors'))
+    cls_atoms = [a_ for a_ in ICS.atoms() if re.match(r'^isinstance\(.*, ast\.Class\)$', a_)]
+    ret_based = [a_ for a_ in cls_atoms if 'retval' in a_]
+    other_cls = [a_ for a_ in cls_atoms if 'retval' not in a_ and 'parent' not in a_]
+    neq = [a_ for a_ in ICS.atoms() if re.match(r'^self\._get_constructor_class\(.*\) == .*retval', a_) or re.match(r'^.*retval.* == self\._get_constructor_class\(', a_)]
+    falses = gsa.disj(*[g for g, n in ICS.returns if gsa._unparse(n) == 'False'])
+    okc = bool(ret_based) and bool(neq) and not gsa.can_hold(gsa.neg(falses), dict([(a_, False) for a_ in ret_based] + [(a_, False) for a_ in neq] +
+                                                                                  [(a_, True) for a_ in ICS.atoms() if re.search(r'\.namespace == self\._namespace$', a_)] +
+                                                                                  [(a_, False) for a_ in ICS.atoms() if re.search(r' is None$', a_)]))
+    r6.check(okc, 'a non-class return type must be the constructed type itself', mt.rel, ICS.func.lineno,
+             'when the returned type is not a class (boxed, record) and differs from the type the function is named after, _is_constructor can still accept it '
+             '(class test on %s, equality test %s): foo_button_new_rect() returning FooRect becomes a constructor of FooButton' % (cls_atoms, neq), detail=cls_atoms)
+    gdm = py.mod('gdumpparser')
+    am_ = py.mod('ast')
+
+    def suffixes(f):
+        return sorted(set(n.value for n in ast.walk(f) if isinstance(n, ast.Constant) and isinstance(n.value, str) and re.match(r'^_?get_g?type$', n.value)))
+    accept = suffixes(py.func('gdumpparser', 'GDumpParser._initparse_function'))
+    meta = suffixes(py.func('ast', 'Function.is_type_meta_function'))
+    split = suffixes(py.func('gdumpparser', 'GDumpParser._split_type_and_symbol_prefix'))
+    r6.check(set(accept) == set(meta) and set(a_.lstrip('_') for a_ in accept) <= set(a_.lstrip('_') for a_ in split) and len(accept) == 2, 'get-type suffixes: recognised and stripped alike', gdm.rel, 1,
+             'get-type functions are recognised by %s / %s but the symbol prefix is derived by stripping %s: a type registered through <prefix>_get_gtype gets a wrong '
+             'c:symbol-prefix and its functions are not paired with it' % (accept, meta, split), detail={'accept': accept, 'meta': meta, 'split': split})
+    SSP = gsa.summarise(ctx, 'gdumpparser', 'GDumpParser._split_type_and_symbol_prefix', inline_only=())
+    sfx = sorted(set(re.findall(r"len\('(_get_g?type)'\)", ' '.join(gsa._unparse(n) for g, n in SSP.returns))))
+    r6.check(sfx == ['_get_gtype', '_get_type'], 'symbol prefix = name minus the suffix that was actually matched', gdm.rel, SSP.func.lineno, 'suffix lengths stripped: %s' % sfx)
